@@ -11,7 +11,9 @@ def rejections(ctx, ex):
     n = 0
     for item, must in [("struct X { #[debug(transparent)] a: u8, #[debug(transparent)] b: u8 }", True), ("struct X(#[debug(transparent)] u8, u8, #[debug(transparent)] u8);", True),
                        ("enum X { A(#[debug(transparent)] u8, #[debug(transparent)] u8), B }", True), ("enum X { A(#[debug(transparent)] u8), B(#[debug(transparent)] u8) }", False),
-                       ("struct X { #[debug(transparent)] a: u8, #[debug(ignore)] b: u8 }", False), ("struct X(#[debug(transparent, ignore)] u8);", False)]:
+                       ("struct X { #[debug(transparent)] a: u8, #[debug(ignore)] b: u8 }", False), ("struct X(#[debug(transparent, ignore)] u8);", False),
+                       ("struct X { #[debug(transparent, ignore)] a: u8, #[debug(transparent)] b: u8 }", True), ("struct X(#[debug(ignore, transparent)] u8, #[debug(transparent)] u8);", True),
+                       ("enum X { A { #[debug(transparent)] #[allow(unused)] a: u8, #[debug(ignore, transparent)] b: u8 }, B }", True)]:
         for entry in ("attr", "derive"):
             r, has_item = B.expand(ex, entry, ["Debug"], item)
             n += 1
